@@ -78,8 +78,10 @@ class LoopSpec:
     head (default: the function contract's modifies).  `types`: declared types of loop-carried
     locals whose meta-type changes (e.g. None -> object)."""
 
-    def __init__(self, inv, modifies=None, types=None, elem=None, decreases=None):
+    def __init__(self, inv, modifies=None, types=None, elem=None, decreases=None, written=None, coro_list=False):
         self.inv = inv
+        self.coro_list = coro_list
+        self.written = written  # fn(s0, a, l) -> refs of pre-existing objects the body itself writes
         self.modifies = modifies
         self.types = types or {}
         self.elem = elem
@@ -584,6 +586,10 @@ class Executor:
         if isinstance(r, Coro):
             path.coros.pop(r.ident, None)
             return r.thunk(path)
+        if isinstance(r, O):
+            me = class_model(r.cls)._find("methods", "__await__")
+            if me is not None:
+                return self.invoke_spec(path, me[1], r, CallArgs([], {}), f"{r.cls}.__await__", node)
         self.unsupported(node, f"await of non-coroutine value {type(r).__name__}")
 
     def ev_Starred(self, node, path):
@@ -630,6 +636,10 @@ class Executor:
         if len(node.generators) != 1 or node.generators[0].is_async:
             self.unsupported(node, "multi-clause comprehension")
         gen = node.generators[0]
+        spec0 = self.loop_spec(node)
+        if kind == "list" and spec0 is not None and getattr(spec0, "coro_list", False) and env is None:
+            from .models import CoroList
+            return [(path, CoroList(node, dict(path.env), self.loop_ids[id(node)]))]
         acc_name = f"__acc{self.loop_ids[id(node)]}"
         saved_env = None
         if env is not None:
@@ -950,7 +960,7 @@ class Executor:
                 outs.append((pe, Raise(x)))
         return outs
 
-    def havoc_keys(self, path, keys, s_before: StateView, prefix="H_"):
+    def havoc_keys(self, path, keys, s_before: StateView, prefix="H_", exclude=()):
         """Havoc the heap keys of a modifies clause.  `key+` = only objects allocated after
         `s_before` may differ.  The allocation watermark only grows."""
         al0 = s_before["ghost.alloc"]
@@ -962,8 +972,9 @@ class Executor:
             path.hset(key, new)
             if plus:
                 o = z3.Const("o!hv", Int)
-                path.assume(z3.ForAll([o], z3.Implies(z3.And(o >= 0, o < al0),
-                                                      z3.Select(new, o) == z3.Select(old, o))))
+                path.assume(z3.ForAll([o], z3.Implies(z3.And(o >= 0, o < al0, *[o != x for x in exclude]),
+                                                      z3.Select(new, o) == z3.Select(old, o)),
+                                      patterns=[z3.Select(new, o)]))
         na = fresh("alloc", Int)
         path.assume(na >= path.hget("ghost.alloc"))
         path.hset("ghost.alloc", na)
@@ -1333,7 +1344,10 @@ class Executor:
                 path.env[nm] = self._havoc_like(path, path.env[nm], nm)
         mods = spec.modifies if spec.modifies is not None else (self.contract.modifies if self.contract else [])
         entry = path.snapshot()
-        self.havoc_keys(path, mods, entry, prefix="L_")
+        entry.written = [ref_of(path.env[nm]) for nm in path.env if nm.startswith("__acc") and isinstance(path.env[nm], O)]
+        if spec.written is not None:
+            entry.written += list(spec.written(self.s0, self.a, self._locals_ns(path)))
+        self.havoc_keys(path, mods, entry, prefix="L_", exclude=entry.written)
         return entry
 
     def _havoc_like(self, path, v: V, nm: str) -> V:
@@ -1372,7 +1386,7 @@ class Executor:
                         continue
                     o = z3.Const("o!lf", Int)
                     self.run.oblige(path, f"loop{k}-inv-{phase}", f"frame:{key}-old-objects-kept",
-                                    z3.ForAll([o], z3.Implies(z3.And(o >= 0, o < al0),
+                                    z3.ForAll([o], z3.Implies(z3.And(o >= 0, o < al0, *[o != x for x in entry.written]),
                                                               z3.Select(cur, o) == z3.Select(init, o))))
 
     def _assume_inv(self, path, spec: LoopSpec, **extra):
@@ -1412,6 +1426,40 @@ class Executor:
         """-> (elem(k) -> z3 expr, n z3 Int, elem type) or ('unroll', [V])"""
         if isinstance(v, T):
             return ("unroll", list(v.items))
+        from .models import CoroList
+        if isinstance(v, CoroList):
+            gen = v.node.generators[0]
+            if gen.ifs:
+                self.unsupported(node, "filtered list of coroutines")
+            saved = path.env
+            path.env = dict(v.env)
+            its = self.ev(gen.iter, path)
+            path.env = saved
+            if len(its) != 1 or isinstance(its[0][1], Raise):
+                self.unsupported(node, "coroutine list iterable")
+            elem, n, et = self.seq_view(path, its[0][1], node)
+
+            def build(p, ref, v=v, gen=gen, et=et):
+                env2 = dict(v.env)
+                env2[gen.target.id] = wrap(et, ref)
+                ident = next(self.run.coro_counter)
+
+                def thunk(p2):
+                    saved2 = p2.env
+                    p2.env = env2
+                    out = []
+                    for p3, r in self.ev(v.node.elt, p2):
+                        p3.env = saved2
+                        if isinstance(r, Coro):
+                            p3.coros.pop(r.ident, None)
+                            out += r.thunk(p3)
+                        else:
+                            out.append((p3, r))
+                    return out
+
+                return Coro(thunk, ident)
+
+            return elem, n, ("coro", build)
         if isinstance(v, O):
             base, targs = split_generic(v.cls)
             if base == "Opt":
@@ -1478,19 +1526,28 @@ class Executor:
         out = []
         for p, more in self.branch(path, i < n):
             if more:
-                item = wrap(et, elem(i))
+                item = et[1](p, elem(i)) if isinstance(et, tuple) else wrap(et, elem(i))
                 for p1, oc1 in self.assign(p, st.target, item):
                     for p2, oc in self.exec_block(st.body, p1):
                         if isinstance(oc, (Norm, Cont)):
                             self._check_inv(p2, spec, k, "preserved", entry=entry, i=i + 1, n=n, seq=elem)
                             self.run.paths_explored += 1
                         elif isinstance(oc, Brk):
+                            if isinstance(et, tuple):
+                                self.coro_list_exit(p2, i, n, st)
                             out.append((p2, NORM))
                         else:
+                            if isinstance(et, tuple):
+                                self.coro_list_exit(p2, i, n, st)
                             out.append((p2, oc))
             else:
                 out += self.exec_block(st.orelse, p)
         return out
+
+    def coro_list_exit(self, path, i, n, node):
+        """Leaving a loop over started coroutines early: those not yet awaited stay pending."""
+        self.run.oblige(path, "await", f"C05|await-discipline:every-started-coroutine-is-awaited@{getattr(node, 'lineno', 0)}",
+                        i + 1 == n)
 
     def exec_Break(self, st, path):
         return [(path, Brk())]
